@@ -205,4 +205,31 @@ REGISTRY = {
         "level_note": "Trusted: Coq kernel/vm_compute, hand-written models (checked by correspondence), harness. F6 reported as KNOWN-FINDING only when the faithful model reproduces it. No axioms.",
         "explanation": "C06_* proved; F6 witness.",
     },
+    "C01": {
+        "corr": "C01",
+        "classes": {1: "F9", 2: "F11"},
+        "harness_timeout": 3000,
+        "trusted": [
+            "modelled: the pipeline algebra and its sequential meaning (Model/Pipe.v, same closed vocabulary of user functions in Rust and Gallina), the distributed meaning over partitions and exchanges (Model/PipeDist.v)",
+            "abstracted in the distributed meaning: worker threads, channels, sockets and batching — a block boundary is an exchange that preserves the multiset and (group-by) keeps equal keys together, with arbitrary arrival order; this abstraction is justified by the component theorems C02 (links), C03 (routing), C05 (block input), and tied to the engine end to end by sampled whole-job runs",
+            "order-sensitive operators (count windows, zip) are outside the order-insensitive algebra: deterministic only behind single-producer links (C12, C09, C16)",
+        ],
+        "assumptions": ["user functions associative and commutative where the API requires it (the vocabulary uses +, max, min, count)"],
+        "level_text": "Proof: for every pipeline of the algebra and every distributed execution admitted by the partition/exchange semantics (any parallelism, partitioning, arrival order, single- or two-phase aggregation, hash or broadcast join shipping, loops round by round), the sink multiset equals the sequential meaning (theorem C01_transparency, structural, unbounded). Tied to the code by executing random pipelines on the real engine under local(1), local(1..8) and 2..3 loopback hosts with all batch modes and comparing each sink with the sequential meaning inside Coq. Thread/socket interleavings of the real engine are sampled, not proved.",
+        "level_note": "Trusted: Coq kernel/vm_compute, the two hand-written semantics, harness (pipeline builder over the public API), the link between exchange semantics and engine (component theorems + sampled runs). Known findings F9 (iterate deadlock) and F11 (forward edge to a wider block panics at start) are recognised only when every other run of the case is right. No axioms.",
+        "explanation": "C01_transparency proved; whole jobs run on the real engine.",
+    },
+    "C10": {
+        "corr": "C10",
+        "classes": {1: "F9", 2: "F11"},
+        "harness_timeout": 3000,
+        "trusted": [
+            "modelled: the round-by-round semantics of replay / iterate / nested loops over distributed bodies (Model/PipeDist.v dloop, diter) against the sequential fixed point (Model/Pipe.v); leader and state-publication protocol (Model/Loop.v) when present",
+            "trusted primitives: Condvar / Barrier / memory ordering of the state cell (the UnsafeCell in IterationStateRef); the protocol argument is at model level",
+        ],
+        "assumptions": ["local and global folds associative-commutative (sum in the vocabulary); loop bodies end in the loop's feedback (every body block leads to the IterationEnd)"],
+        "level_text": "Proof: replay and iterate loops over arbitrarily distributed bodies compute exactly the sequential fixed point — same state sequence, same stop round, same final elements — including nested loops (theorems C10_replay, C10_iterate, C10_nested_restarts). Tied to the code by running loop jobs whose bodies add the loop state to every value (a stale or too-new state changes the sink) on local and multi-host deployments. Partial: which state a replica reads is argued at protocol-model level; Condvar/Barrier are trusted.",
+        "level_note": "Trusted: Coq kernel/vm_compute, hand-written semantics, harness, OS synchronisation primitives. No axioms.",
+        "explanation": "C10_* proved; loop jobs run on the real engine.",
+    },
 }
